@@ -164,6 +164,11 @@ fn instants(quick: bool) -> Vec<NaiveDateTime> {
             }
         }
     }
+    // the edges of the nanosecond range: the first and the last representable instants, the first partial
+    // second (floor-seconds times 10^9 leaves i64 there although the instant does not), the second after it
+    for ns in [i64::MIN + 1, i64::MIN + 2, i64::MIN + 1000, -9_223_372_036_000_000_001, -9_223_372_036_000_000_000, -9_223_372_035_999_999_999, i64::MAX, i64::MAX - 1, 9_223_372_036_000_000_000, 9_223_372_036_000_000_001] {
+        v.push(chrono::DateTime::from_timestamp_nanos(ns).naive_utc());
+    }
     v
 }
 
